@@ -152,6 +152,13 @@ def tree_cases(draw, max_levels=5, max_leaves=25):
             pos += c
     if draw(st.integers(0, 2)) == 0:
         tree['metadata'] = {'note': 'm'}
+    if draw(st.integers(0, 5)) == 0:
+        # one node carries the empty string as its label (a blank annotation)
+        li = draw(st.integers(0, len(h) - 1))
+        old = draw(st.sampled_from(sorted(tree[h[li]].keys())))
+        tree[h[li]] = {('' if k == old else k): v for k, v in tree[h[li]].items()}
+        if li > 0:
+            tree[h[li - 1]] = {k: [('' if c == old else c) for c in v] for k, v in tree[h[li - 1]].items()}
     return {'kind': 'tree', 'origin': 'random', 'tree': tree}
 
 
@@ -170,6 +177,12 @@ def label_cases(draw):
                 ren[(lv, n)] = f'L{j}'
             else:                             # integer labels (pandas would hand over numbers)
                 ren[(lv, n)] = j
+    if label_mode != 'int' and draw(st.integers(0, 5)) == 0:
+        # one node carries the empty string as its label (a blank annotation column entry)
+        lv0 = draw(st.sampled_from(list(h)))
+        n0 = draw(st.sampled_from(sorted(tree[lv0].keys())))
+        if label_mode == 'own':
+            ren[(lv0, n0)] = ''
     leaves = t.leaves()
     counts = draw(st.lists(st.integers(0, 3), min_size=len(leaves), max_size=len(leaves)))
     if sum(counts) == 0:
